@@ -189,7 +189,8 @@ except Exception:
 # they continue; `help` one level below the header and its text two levels below; children of menu/choice/if one level
 # below; everything after `mainmenu` one level below it (that is what the checker and the repo's own fixtures do).
 
-C18_PASS_BOUND = 3
+C18_PASS_BOUND = 4   # at most 3 rewriting passes (indentation, then tabs/trailing blanks, one more for lines re-indented wrongly
+#                      after a continuation), the 4th pass must report OK
 
 
 def _ind(level):
@@ -863,41 +864,133 @@ _KW_LEAD = re.compile(r"^(menu(?!config)|mainmenu|choice|config|menuconfig|comme
 
 
 def c18_mechanisms(canon_lines, mangled_lines):
-    mech = set()
-    base = None          # canonical indent of the current help body
-    prev_kind = None
-    after_help = False
-    for (kind, ct), (_, mt) in zip(canon_lines, mangled_lines):
+    """dict mechanism -> sorted list of the line indices that exhibit it."""
+    mech = {}
+
+    def add(m, ixs):
+        mech.setdefault(m, set()).update(ixs)
+
+    n = len(canon_lines)
+    i = 0
+    while i < n:
+        kind, ct = canon_lines[i]
+        mt = mangled_lines[i][1]
         cn = len(ct) - len(ct.lstrip(" "))
         mn = len(mt) - len(mt.lstrip(" \t"))
+        if kind == "cont" and mn != cn:
+            add("misindented-continuation", [i])
         if kind == "helpkw":
             base = cn + 4
-            after_help = False
-        elif kind == "helpbody":
-            if mn < base:
-                mech.add("help-body-under-level")
-                if _KW_LEAD.match(mt.strip()):
-                    mech.add("help-line-starts-with-keyword")
-                if cn > base:
-                    mech.add("help-relative-indent")
-            after_help = True
-        elif kind in ("stmt", "attr", "hash"):
-            if after_help and base is not None and mn >= base:
-                mech.add("statement-after-help-at-help-level")
-            if kind != "hash":
-                after_help = False
-                base = None
-        if kind == "cont" and mn != cn:
-            mech.add("misindented-continuation")
-        if "\t" in mt[:mn]:
-            mech.add("leading-tab")
-        prev_kind = kind
-    del prev_kind
-    return sorted(mech)
+            j = i + 1
+            block = []
+            while j < n and canon_lines[j][0] in ("helpbody", "blank"):
+                if canon_lines[j][0] == "helpbody":
+                    block.append(j)
+                j += 1
+            under = [x for x in block if len(mangled_lines[x][1]) - len(mangled_lines[x][1].lstrip(" \t")) < base]
+            if under:
+                if any(_KW_LEAD.match(mangled_lines[x][1].strip()) for x in under):
+                    add("help-line-starts-with-keyword", block)
+                elif any(len(canon_lines[x][1]) - len(canon_lines[x][1].lstrip(" ")) > base for x in block):
+                    add("help-relative-indent", block)
+                else:
+                    add("help-body-under-level", block)
+            # statements that follow the help text (after blank lines / comments) at or beyond the help level
+            k = j
+            while k < n and canon_lines[k][0] in ("blank", "hash"):
+                k += 1
+            if block and k < n:
+                mk = mangled_lines[k][1]
+                if len(mk) - len(mk.lstrip(" \t")) >= base:
+                    add("statement-after-help-at-help-level", [k])
+            i = j
+            continue
+        i += 1
+    return {m: sorted(ix) for m, ix in mech.items()}
+
+
+C18_MECH_PRIORITY = ("help-line-starts-with-keyword", "misindented-continuation", "statement-after-help-at-help-level",
+                     "help-relative-indent", "help-body-under-level")
 
 
 def _norm_help(helps):
     return [None if h is None else "\n".join(x.rstrip() for x in h.expandtabs().split("\n")) for h in helps]
+
+
+def _help_shape(helps):
+    return [None if h is None else [x.strip() for x in h.split("\n")] for h in helps]
+
+
+def _c18_eval_mangled(acc, d, text, canon, meaning=True):
+    """
+    The contract proper, on directory d (sourced files already there).  Returns None if the precondition does not hold
+    (the file does not mean the same as the canonical one under any parser), else (problems, passes).
+    """
+    path = os.path.join(d, "Kconfig")
+    if meaning:
+        _write(path, canon)
+        res, exc, logtext = _validate(path, False)
+        if os.path.exists(path + ".new"):
+            os.remove(path + ".new")
+        if res is not True:
+            return None      # the canonical file itself is (wrongly) flagged: reported by the compliant-file contract
+        ref = {v: c18_load(d, v) for v in (1, 2)}
+        _write(path, text)
+        before = {v: c18_load(d, v) for v in (1, 2)}
+        in_scope = [v for v in (1, 2) if ref[v][0] != "error" and before[v][0] != "error"
+                    and before[v][0] == ref[v][0] and before[v][2] == ref[v][2] and _help_shape(before[v][1]) == _help_shape(ref[v][1])]
+        if not in_scope:
+            return None
+    else:
+        _write(path, text)
+        in_scope, before = [], {}
+    problems = []
+    ok, res, passes = False, None, 0
+    for i in range(C18_PASS_BOUND):
+        res, exc, logtext = _validate(path, True)
+        acc.ev()
+        passes = i + 1
+        if exc is not None:
+            problems.append(("abort", "validate_file(replace=True) raised %s in pass %d; log: %s"
+                             % (exc, i + 1, " | ".join(x.strip() for x in logtext.splitlines() if "rror" in x or "FATAL" in x or "stack" in x)[-300:])))
+            break
+        if os.path.exists(path + ".new"):
+            problems.append(("new_left", ".new left behind by --replace pass %d" % (i + 1)))
+            os.remove(path + ".new")
+        if res is True:
+            ok = True
+            break
+    if os.path.exists(path + ".new"):
+        os.remove(path + ".new")
+    fixed = _read(path)
+    if not ok and not problems:
+        problems.append(("no_convergence", "not reported OK within %d --replace passes" % C18_PASS_BOUND))
+    if ok:
+        res, exc, logtext = _validate(path, True)
+        acc.ev()
+        if exc is not None or res is not True or _read(path) != fixed:
+            problems.append(("not_fixed_point", "a further --replace pass on the file reported OK is not the identity (%r, %s)" % (res, exc)))
+        res, exc, logtext = _validate(path, False)
+        acc.ev()
+        if exc is not None or res is not True or os.path.exists(path + ".new") or _read(path) != fixed:
+            problems.append(("not_fixed_point", "plain check of the fixed file: result %r, exception %s, .new exists %s"
+                             % (res, exc, os.path.exists(path + ".new"))))
+        if os.path.exists(path + ".new"):
+            os.remove(path + ".new")
+        _write(path, fixed)
+        for v in in_scope:
+            acc.ev()
+            b = before[v]
+            a = c18_load(d, v)
+            if a[0] == "error":
+                problems.append(("meaning_parse_error", "parser %d reads the original but not the fixed file: %s" % (v, a[1])))
+            elif a[0] != b[0]:
+                problems.append(("meaning_structure", "parser %d: node tree differs, first difference %s" % (v, _first_diff(b[0], a[0]))))
+            elif a[2] != b[2]:
+                problems.append(("meaning_values", "parser %d: snapshot differs: %s" % (v, _first_diff(sorted(b[2].items()), sorted(a[2].items())))))
+            elif _norm_help(a[1]) != _norm_help(b[1]):
+                problems.append(("meaning_help", "parser %d: help text differs, first difference %s" % (v, _first_diff(_norm_help(b[1]), _norm_help(a[1])))))
+    return problems, (passes if ok else None)
 
 
 def c18_case_mangled(acc, frag_tags, wrapper, mname, rng_seed):
@@ -913,77 +1006,47 @@ def c18_case_mangled(acc, frag_tags, wrapper, mname, rng_seed):
     try:
         for name, t in files.items():
             _write(os.path.join(d, name), t)
-        path = os.path.join(d, "Kconfig")
-        # precondition: the mangled file differs from the documented style in white space only AND still means the same
-        _write(path, canon)
-        ref = {v: c18_load(d, v) for v in (1, 2)}
-        _write(path, text)
-        before = {v: c18_load(d, v) for v in (1, 2)}
-        in_scope = [v for v in (1, 2) if ref[v][0] != "error" and before[v][0] != "error"
-                    and before[v][0] == ref[v][0] and before[v][2] == ref[v][2]]
-        if not in_scope:
+        r = _c18_eval_mangled(acc, d, text, canon)
+        if r is None:
             acc.stat("c18:mangled_out_of_scope:" + mname)
             return []
-        problems = []
-        ok, res, passes = False, None, 0
-        for i in range(C18_PASS_BOUND):
-            res, exc, logtext = _validate(path, True)
-            acc.ev()
-            passes = i + 1
-            if exc is not None:
-                problems.append(("abort", "validate_file(replace=True) raised %s in pass %d; log: %s"
-                                 % (exc, i + 1, " | ".join(x.strip() for x in logtext.splitlines() if "ERROR" in x or "FATAL" in x or "rror" in x)[-300:])))
-                break
-            if os.path.exists(path + ".new"):
-                problems.append(("new_left", ".new left behind by --replace pass %d" % (i + 1)))
-                os.remove(path + ".new")
-            if res is True:
-                ok = True
-                break
-        if os.path.exists(path + ".new"):
-            os.remove(path + ".new")
-        fixed = _read(path)
-        if not ok and not problems:
-            problems.append(("no_convergence", "not reported OK within %d --replace passes" % C18_PASS_BOUND))
-        if ok:
+        problems, passes = r
+        if passes is not None:
             acc.nt("c18m:%s:%s:%s" % ("+".join(frag_tags), wrapper, mname))
             acc.stat("c18:passes=%d" % passes)
-            res, exc, logtext = _validate(path, True)
-            acc.ev()
-            if exc is not None or res is not True or _read(path) != fixed:
-                problems.append(("not_fixed_point", "a further --replace pass on the file reported OK is not the identity (%r, %s)" % (res, exc)))
-            res, exc, logtext = _validate(path, False)
-            acc.ev()
-            if exc is not None or res is not True or os.path.exists(path + ".new") or _read(path) != fixed:
-                problems.append(("not_fixed_point", "plain check of the fixed file: result %r, exception %s, .new exists %s"
-                                 % (res, exc, os.path.exists(path + ".new"))))
-            _write(path, fixed)
-            for v in in_scope:
-                acc.ev()
-                b = before[v]
-                a = c18_load(d, v)
-                if a[0] == "error":
-                    problems.append(("meaning_parse_error", "parser %d reads the original but not the fixed file: %s" % (v, a[1])))
-                elif a[0] != b[0]:
-                    problems.append(("meaning_structure", "parser %d: node tree differs, first difference %s" % (v, _first_diff(b[0], a[0]))))
-                elif a[2] != b[2]:
-                    problems.append(("meaning_values", "parser %d: snapshot differs: %s" % (v, _first_diff(sorted(b[2].items()), sorted(a[2].items())))))
-                elif _norm_help(a[1]) != _norm_help(b[1]):
-                    problems.append(("meaning_help", "parser %d: help text differs, first difference %s" % (v, _first_diff(_norm_help(b[1]), _norm_help(a[1])))))
         if problems:
             mech = c18_mechanisms(lines, mlines)
             allfiles = dict(files)
             allfiles["Kconfig"] = text
             script = _c18_script(allfiles, "Kconfig", "mangled", canon)
             seen = set()
+            scratch = _Acc()
             for sym, detail in problems:
                 if sym in seen:
                     continue
                 seen.add(sym)
-                cc = "c18:mangled:%s:%s" % (sym, "+".join(mech) if mech else "unexplained[%s]" % mname)
+                # which mechanism is causal?  restore the lines exhibiting it to the canonical text and re-evaluate
+                cause = None
+                cands = [m for m in C18_MECH_PRIORITY if m in mech]
+                if len(cands) == 1:
+                    cause = cands[0]
+                elif sym == "meaning_help" and "help-relative-indent" in cands:
+                    cause = "help-relative-indent"
+                for m in (cands if cause is None else ()):
+                    restored = list(mlines)
+                    for i in mech[m]:
+                        restored[i] = lines[i]
+                    r2 = _c18_eval_mangled(scratch, d, c18_text(restored), canon, meaning=sym.startswith("meaning"))
+                    if r2 is not None and sym not in [x for x, _ in r2[0]]:
+                        cause = m
+                        break
+                if cause is None:
+                    cause = "joint[%s]" % "+".join(cands) if cands else "unexplained[%s]" % mname
+                cc = "c18:mangled:%s:%s" % (sym, cause)
                 out.append((cc, "validate_file(replace=True) repeated: converges within %d passes to a fixed point that is reported OK and "
                             "that parser 1 and 2 read like the original" % C18_PASS_BOUND,
-                            "fragments=%s wrapper=%s mangling=%s: %s" % ("+".join(frag_tags), wrapper, mname, detail), script, len(text)))
+                            "fragments=%s wrapper=%s mangling=%s (weak spots touched: %s): %s"
+                            % ("+".join(frag_tags), wrapper, mname, ",".join(sorted(mech)), detail), script, len(text)))
         return out
     finally:
         shutil.rmtree(d, ignore_errors=True)
@@ -1125,3 +1188,316 @@ def c18_rename_cases(acc):
             finally:
                 shutil.rmtree(d, ignore_errors=True)
     return out
+
+
+# ---- CLI contract ---------------------------------------------------------------------------------------------------
+
+def _run_cli(args, cwd, env_extra=None, timeout=120):
+    env = dict(os.environ)
+    env["PYTHONPATH"] = REPO + (os.pathsep + env["PYTHONPATH"] if env.get("PYTHONPATH") else "")
+    env.pop("IDF_PATH", None)
+    env.update(env_extra or {})
+    p = subprocess.run([PY, "-m", "kconfcheck"] + list(args), cwd=cwd, env=env, stdout=subprocess.PIPE, stderr=subprocess.PIPE,
+                       timeout=timeout)
+    txt = (p.stdout + p.stderr).decode("utf-8", "replace")
+    return p.returncode, re.sub(r"\x1b\[[0-9;]*m", "", txt)
+
+
+C18_CLI_SCRIPT = SCRIPT_HEAD + '''
+import subprocess
+DIRS = %(dirs)r     # list of {file name -> text}; each dict is one directory whose "Kconfig" is passed to the CLI
+MODE = %(mode)r     # "compliant" | "mangled"
+BOUND = %(bound)d
+root = tempfile.mkdtemp(prefix="c18cli")
+bad = []
+try:
+    paths = []
+    for i, files in enumerate(DIRS):
+        d = os.path.join(root, "d%%d" %% i); os.makedirs(d)
+        for n, t in files.items():
+            open(os.path.join(d, n), "w", newline="\\n").write(t)
+        paths.append(os.path.join(d, "Kconfig"))
+    env = dict(os.environ, PYTHONPATH=REPO)
+    def cli(*a):
+        p = subprocess.run([sys.executable, "-m", "kconfcheck"] + list(a) + paths, cwd=root, env=env, stdout=subprocess.PIPE, stderr=subprocess.STDOUT)
+        return p.returncode, p.stdout.decode()
+    if MODE == "compliant":
+        for extra in ((), ("--replace",)):
+            rc, out = cli(*extra)
+            if rc != 0: bad.append("exit status %%d for compliant files %%s\\n%%s" %% (rc, extra, out[-600:]))
+            for p_, files in zip(paths, DIRS):
+                if open(p_, newline="").read() != files["Kconfig"]: bad.append("%%s changed" %% p_)
+                if os.path.exists(p_ + ".new"): bad.append("%%s.new left behind" %% p_); os.remove(p_ + ".new")
+    else:
+        rc = None
+        for i in range(BOUND):
+            rc, out = cli("--replace")
+            if rc == 0: break
+        if rc != 0: bad.append("exit status still %%r after %%d --replace runs\\n%%s" %% (rc, BOUND, out[-600:]))
+        snap = [open(p_, newline="").read() for p_ in paths]
+        rc, out = cli("--replace")
+        if rc != 0 or snap != [open(p_, newline="").read() for p_ in paths]: bad.append("further --replace run is not the identity")
+        if any(os.path.exists(p_ + ".new") for p_ in paths): bad.append(".new left behind")
+finally:
+    shutil.rmtree(root, ignore_errors=True)
+for b in bad: print("VIOLATION:", b)
+sys.exit(1 if bad else 0)
+'''
+
+
+def c18_cli_case(acc, which):
+    """
+    CLI `python -m kconfcheck` on several files in one invocation.
+    which = ("compliant", [ (tags, wrapper), ... ]) or ("mangled", [ (tags, wrapper, mangler), ... ])
+    """
+    mode, specs = which
+    out = []
+    root = tempfile.mkdtemp(prefix="rtc18cli_")
+    try:
+        paths, texts, dirs, inproc = [], [], [], []
+        for i, sp in enumerate(specs):
+            lines, files = c18_file(sp[0], sp[1])
+            if mode == "mangled":
+                lines = C18_MANGLERS[sp[2]](lines, random.Random(1))
+            text = c18_text(lines)
+            d = os.path.join(root, "d%d" % i)
+            for name, t in files.items():
+                _write(os.path.join(d, name), t)
+            _write(os.path.join(d, "Kconfig"), text)
+            paths.append(os.path.join(d, "Kconfig"))
+            texts.append(text)
+            allf = dict(files)
+            allf["Kconfig"] = text
+            dirs.append(allf)
+        script = C18_CLI_SCRIPT % {"dirs": dirs, "mode": mode, "bound": C18_PASS_BOUND}
+        contract = ("python -m kconfcheck [--replace] <files>: exit status 0 and `<file>: OK` for every compliant file, bytes unchanged, no .new; "
+                    "for whitespace-only defects exit status 0 within %d --replace runs, then identity, and the same bytes as "
+                    "validate_file(replace=True) produces in-process" % C18_PASS_BOUND)
+        if mode == "compliant":
+            for extra in ([], ["--replace"]):
+                rc, txt = _run_cli(extra + paths, root)
+                acc.ev()
+                probs = []
+                if rc != 0:
+                    probs.append("exit status %d" % rc)
+                for p_, t in zip(paths, texts):
+                    if ("%s: OK" % p_) not in txt.replace("\n", ""):
+                        probs.append("no `OK` line for %s" % os.path.relpath(p_, root))
+                    if _read(p_) != t:
+                        probs.append("%s changed" % os.path.relpath(p_, root))
+                        _write(p_, t)
+                    if os.path.exists(p_ + ".new"):
+                        probs.append("%s.new left behind" % os.path.relpath(p_, root))
+                        os.remove(p_ + ".new")
+                if probs:
+                    classes = sorted(set(_msg_class(x) for x in txt.splitlines() if re.search(r":\d+: ", x))) or ["no-message"]
+                    for m in classes:
+                        out.append(("c18:cli:compliant:" + m, contract, "kconfcheck %s on %d compliant files: %s; output: %s"
+                                    % (" ".join(extra), len(paths), "; ".join(probs[:4]), txt[-300:]), script, sum(map(len, texts))))
+                else:
+                    acc.nt("c18cli:compliant:%s:%d" % ("r" if extra else "c", len(paths)))
+        else:
+            # in-process reference: the same loop with validate_file on copies
+            ref = []
+            for i, t in enumerate(texts):
+                d2 = os.path.join(root, "r%d" % i)
+                shutil.copytree(os.path.join(root, "d%d" % i), d2)
+                p2 = os.path.join(d2, "Kconfig")
+                for _ in range(C18_PASS_BOUND):
+                    res, exc, _lt = _validate(p2, True)
+                    if res is True or exc is not None:
+                        break
+                ref.append(_read(p2))
+            rc, txt = None, ""
+            n_runs = 0
+            for _ in range(C18_PASS_BOUND):
+                rc, txt = _run_cli(["--replace"] + paths, root)
+                acc.ev()
+                n_runs += 1
+                if rc == 0:
+                    break
+            probs = []
+            if rc != 0:
+                probs.append("exit status still %r after %d --replace runs" % (rc, n_runs))
+            got = [_read(p_) for p_ in paths]
+            if got != ref:
+                probs.append("bytes differ from the in-process validate_file loop for %s"
+                             % [os.path.relpath(p_, root) for p_, a, b in zip(paths, got, ref) if a != b])
+            rc2, txt2 = _run_cli(["--replace"] + paths, root)
+            acc.ev()
+            if rc == 0 and (rc2 != 0 or [_read(p_) for p_ in paths] != got):
+                probs.append("a further --replace run is not the identity (exit %d)" % rc2)
+            if any(os.path.exists(p_ + ".new") for p_ in paths):
+                probs.append(".new left behind")
+            if probs:
+                out.append(("c18:cli:mangled:" + re.sub(r"[^a-z]+", "-", probs[0].lower())[:40], contract,
+                            "kconfcheck --replace on %d mangled files %r: %s; output: %s" % (len(paths), [s[2] for s in specs], "; ".join(probs), txt[-300:]),
+                            script, sum(map(len, texts))))
+            else:
+                acc.nt("c18cli:mangled:%d:%d" % (len(paths), n_runs))
+    finally:
+        shutil.rmtree(root, ignore_errors=True)
+    return out
+
+
+# ---- scope / runner ---------------------------------------------------------------------------------------------------
+
+C18_SAFE_CLI_MANGLED = [(["bool"], "top", "w2"), (["int_range"], "menu", "tab_level"), (["choice_named"], "top", "trail_space"),
+                        (["cont3"], "top", "w2+trail"), (["menu_nested"], "top", "w8+inner_tab"), (["orsource_a_after_config"], "menu", "w3")]
+
+
+def c18_work(tier, seed):
+    rng = random.Random(1000003 * seed + 18)
+    tags = list(C18_FRAG_TAGS)
+    work = []
+    for w in C18_WRAPPERS:
+        for t in tags:
+            work.append(("compliant", (t,), w))
+    pairs = [(a, b) for a in tags for b in tags]
+    for a, b in pairs:
+        work.append(("compliant", (a, b), "top"))
+    if tier == "thorough":
+        for a, b in pairs:
+            for w in ("menu", "menu_if", "deep", "nomain"):
+                work.append(("compliant", (a, b), w))
+        triples = [tuple(rng.sample(tags, 3)) for _ in range(3000)]
+        for tr in triples:
+            work.append(("compliant", tr, rng.choice(C18_WRAPPERS)))
+    mnames = sorted(C18_MANGLERS)
+    for w in (("top", "deep") if tier == "quick" else ("top", "menu", "deep")):
+        for t in tags:
+            for m in mnames:
+                work.append(("mangled", (t,), w, m, 1))
+    n_pairs = 20 if tier == "quick" else 700
+    for a, b in rng.sample(pairs, n_pairs):
+        w = rng.choice(("top", "menu", "menu_if", "deep"))
+        for m in mnames:
+            work.append(("mangled", (a, b), w, m, rng.randrange(1 << 30)))
+    if tier == "thorough":
+        for w in ("menu_if", "if_top"):
+            for t in tags:
+                for m in mnames:
+                    work.append(("mangled", (t,), w, m, 2))
+        for t in tags:
+            for s in range(8):
+                work.append(("mangled", (t,), "menu", "jitter", 100 + s))
+    work.append(("rename",))
+    work.append(("cli", ("compliant", [((t,), "top") for t in tags])))
+    work.append(("cli", ("compliant", [((t,), "deep") for t in tags[::3]] + [((t,), "nomain") for t in tags[1::3]])))
+    work.append(("cli", ("mangled", C18_SAFE_CLI_MANGLED[:3])))
+    work.append(("cli", ("mangled", C18_SAFE_CLI_MANGLED[3:])))
+    return work
+
+
+def _c18_worker(chunk):
+    _quiet()
+    acc = _Acc()
+    for w in chunk:
+        t_w = time.time()
+        try:
+            if w[0] == "compliant":
+                vs = c18_case_compliant(acc, list(w[1]), w[2])
+            elif w[0] == "mangled":
+                vs = c18_case_mangled(acc, list(w[1]), w[2], w[3], w[4])
+            elif w[0] == "rename":
+                vs = c18_rename_cases(acc)
+            else:
+                vs = c18_cli_case(acc, w[1])
+        except Exception:  # noqa: BLE001 - a bug of the driver, not of the library
+            acc.stat("checker_error")
+            acc.stats.setdefault("checker_error_text", traceback.format_exc()[-1500:])
+            continue
+        acc.stat("ms:" + w[0], int(1000 * (time.time() - t_w)))
+        for cc, contract, detail, script, size in vs:
+            acc.violation(cc, contract, detail, script, size)
+        if w[0] in ("mangled",) and len(acc.samples) < 2:
+            acc.sample({"kind": w[0], "fragments": list(w[1]), "wrapper": w[2], "mangling": w[3]})
+        elif w[0] == "compliant" and len(acc.samples) < 1:
+            acc.sample({"kind": w[0], "fragments": list(w[1]), "wrapper": w[2]})
+    return acc.dump()
+
+
+def run_c18(tier, seed, jobs):
+    work = c18_work(tier, seed)
+    # the slow CLI items first so that they overlap with the rest
+    work.sort(key=lambda w: 0 if w[0] == "cli" else 1)
+    heavy = [w for w in work if w[0] in ("cli", "rename")]
+    light = [w for w in work if w[0] not in ("cli", "rename")]
+    chunks = [[h] for h in heavy] + _chunks(light, max(1, jobs) * 4)
+    acc = _Acc()
+    for d in _pool_map(_c18_worker, chunks, jobs):
+        acc.merge(d)
+    n_c = sum(1 for w in work if w[0] == "compliant")
+    n_m = sum(1 for w in work if w[0] == "mangled")
+    bound = ("Kconfig files rendered in kconfcheck's documented style from %d hand-written fragments (all entry kinds: config/menuconfig of every "
+             "type, promptless, prompt keyword, menus nested 3 deep with depends on/visible if, named/unnamed choices with help, if blocks, comment "
+             "entries, select/imply/set, '#' comments at level / column 0 / inline, help with blank lines / deeper lines / lines starting with "
+             "keywords, backslash continuations over 2, 3 and 4 physical lines, source/rsource/osource/orsource (existing and absent files, env "
+             "var path) after a config, after help, first in block, inside and after a menu, after a comment) x wrappers %s; compliant clause: "
+             "%d files (all single fragments x 6 wrappers, all ordered pairs x {top}%s); mangled clause: %d files = fragments/pairs x wrappers "
+             "x %d whitespace manglings (level width 1,2,3,5,6,8; tab per level; tab per 8 columns; mixed; shift by 2; trailing blanks / tabs; tab "
+             "between tokens; random per-line indentation; compositions), only those that both parsers still read like the canonical file; "
+             "%d sdkconfig.rename files x 3 manglings; 4 CLI invocations with up to %d files; pass bound %d"
+             % (len(C18_FRAG_TAGS), list(C18_WRAPPERS), n_c, ", all ordered pairs x the other wrappers and 3000 random triples" if tier == "thorough" else "",
+                n_m, len(C18_MANGLERS), len(c18_rename_files()), len(C18_FRAG_TAGS), C18_PASS_BOUND))
+    rule = ("exhaustive over single fragments and ordered pairs; the seed selects which %d pairs (and their wrapper / jitter seeds) get all "
+            "manglings%s" % (20 if tier == "quick" else 700, " and the random triples" if tier == "thorough" else ""))
+    contracts = [
+        "kconfcheck.core.validate_file(path, replace=False|True) on a file in the documented style: returns True, file bytes unchanged, no <file>.new, directory listing unchanged",
+        "kconfcheck.core.validate_file(path, replace=True) repeated on a file whose only defects are indentation width / tabs / trailing blanks: "
+        "never aborts, leaves no .new, returns True within %d passes; one more pass (and a plain check) returns True and is the identity; "
+        "Kconfig(parser_version=1) and Kconfig(parser_version=2) of the result have the same node tree (all nodes, all properties, line numbers), "
+        "the same gen.snapshot() and the same help texts as those of the file before fixing" % C18_PASS_BOUND,
+        "the same two contracts for sdkconfig.rename files (meaning = old->new map and inversions loaded by Kconfig.load_rename_files under both parsers)",
+        "python -m kconfcheck [--replace] f1..fn: exit status 0 / `OK` per compliant file / bytes unchanged / no .new; on mangled files exit 0 within "
+        "%d runs, then identity, bytes equal to the in-process validate_file loop" % C18_PASS_BOUND,
+    ]
+    return acc, bound, rule, contracts
+
+
+# ======================================================================================================================
+# entry points
+# ======================================================================================================================
+
+def run(prop, tier="quick", seed=0, jobs=None):
+    t0 = time.time()
+    jobs = jobs or min(16, os.cpu_count() or 1)
+    base = {"name": NAME, "property": prop, "kind": "bounded"}
+    try:
+        _quiet()
+        G.scrub_env()
+        runner = {"C18": run_c18, "C19": globals().get("run_c19"), "C20": globals().get("run_c20")}.get(prop)
+        if runner is None:
+            raise ValueError("unknown property %r (served: %s)" % (prop, PROPERTIES))
+        acc, bound, rule, contracts = runner(tier, seed, jobs)
+        if acc.stats.get("checker_error"):
+            base.update(status="checker_error", reason="driver exception in %d work items: %s"
+                        % (acc.stats["checker_error"], acc.stats.get("checker_error_text", "")))
+        else:
+            base["status"] = "ok"
+        stats = {k: v for k, v in sorted(acc.stats.items()) if k != "checker_error_text"}
+        base.update(bound=bound, rule=rule, contracts=contracts, evaluations=acc.evaluations,
+                    distinct_nontrivial=len(acc.nontrivial), samples=acc.samples[:5], violations=acc.violations(), stats=stats,
+                    seconds=round(time.time() - t0, 2))
+    except Exception as e:  # noqa: BLE001
+        base.update(status="checker_error", reason="%s: %s\n%s" % (type(e).__name__, e, traceback.format_exc()[-2000:]),
+                    seconds=round(time.time() - t0, 2))
+    return base
+
+
+def main(argv=None):
+    argv = list(sys.argv[1:] if argv is None else argv)
+    if not argv:
+        print("usage: python -m rtc.drv_tools <C18|C19|C20> [quick|thorough] [seed] [jobs]")
+        return 2
+    prop = argv[0]
+    tier = argv[1] if len(argv) > 1 else "quick"
+    seed = int(argv[2]) if len(argv) > 2 else 0
+    jobs = int(argv[3]) if len(argv) > 3 else None
+    res = run(prop, tier, seed, jobs)
+    sys.stdout.write(json.dumps(res, indent=1, sort_keys=True) + "\n")
+    return 0 if res.get("status") == "ok" else 1
+
+
+if __name__ == "__main__":
+    sys.exit(main())
